@@ -15,6 +15,10 @@ import (
 
 const (
 	pkgBastion     = "github.com/transparency-dev/witness/internal/feeder/bastion"
+	pkgHTTP        = "github.com/transparency-dev/witness/internal/http"
+	pkgClientHTTP  = "github.com/transparency-dev/witness/client/http"
+	pkgRest        = "github.com/transparency-dev/witness/internal/distribute/rest"
+	pkgFeeder      = "github.com/transparency-dev/witness/internal/feeder"
 	pkgSumdb       = "github.com/transparency-dev/witness/internal/feeder/sumdb"
 	pkgFeedbastion = "github.com/transparency-dev/witness/cmd/feedbastion"
 	pkgWitness     = "github.com/transparency-dev/witness/internal/witness"
@@ -115,6 +119,17 @@ func init() {
 	reg(&checkSpec{ID: "C18", Assumptions: append([]string{"decimal formatting (%d, %03d) is an uninterpreted function of the 64-bit value shared by both implementations", "tile byte decoding inside tlog.TileHashReader is outside the claim"}, commonAssumptions...), Runs: []runSpec{
 		{Harness: pkgSumdb + ".VerifTilePath", Domain: sym.DomString, Solver: sym.Z3, Quick: p(), Thorough: p(), Covers: []string{"tile/full-deep", "tile/partial-shallow", "tile/seven-levels"}},
 		{Harness: pkgWitness + ".VerifVCComplete", Quick: p("n", 16, "vc_inline", 1), Thorough: p("n", 64, "vc_inline", 1), Covers: []string{"vc/nontrivial-proof"}},
+	}})
+	reg(&checkSpec{ID: "C13", Assumptions: append([]string{"backoff.Retry contract (harness/internal/verifrt/backoff.go), attempts bounded; back-off timing not modelled"}, commonAssumptions...), Runs: []runSpec{
+		{Harness: pkgFeeder + ".VerifFeedOnce", Quick: p("attempts", 2, "maxproof", 1), Thorough: p("attempts", 3, "maxproof", 1), Covers: []string{"feed/success-first-try", "feed/success-after-retry", "feed/witness-ahead", "feed/refresh", "feed/context-done", "feed/unverifiable-checkpoint"}},
+	}})
+	reg(&checkSpec{ID: "C15", Assumptions: append([]string{"net/http client contract: Do answers with an arbitrary status/body, a transport error, or a redirect that changed the method", "url.Parse(x).String() is modelled as x (no normalisation); url.PathEscape is an uninterpreted function"}, commonAssumptions...), Runs: []runSpec{
+		{Harness: pkgRest + ".VerifDistribute", Domain: sym.DomString, Solver: sym.CVC5, Quick: p("logs", 2), Thorough: p("logs", 3), Covers: []string{"dist/pushed", "dist/all-succeeded", "dist/partial-failure"}},
+	}})
+	reg(&checkSpec{ID: "C16", Assumptions: append([]string{"gorilla/mux route matching is outside the claim (mux.Vars returns the symbolic id)", "log-list order: the stores are iterated in insertion order by the engine; JSON encoding of a string list is an injective constructor"}, commonAssumptions...), Runs: []runSpec{
+		{Harness: pkgHTTP + ".VerifReadAPI", Quick: p("logs", 2, "signers", 1, "maxproof", 1, "store", 0), Thorough: p("logs", 3, "signers", 2, "maxproof", 2, "store", 0), Covers: []string{"http/found", "http/unknown-id", "http/known-id-nothing-stored", "http/first-accept-adds-entry", "http/refused-first-submission"}},
+		{Harness: pkgHTTP + ".VerifReadAPI", Quick: p("logs", 2, "signers", 1, "maxproof", 1, "store", 1), Thorough: p("logs", 3, "signers", 2, "maxproof", 2, "store", 1), Covers: []string{"http/found", "http/unknown-id", "http/known-id-nothing-stored", "http/first-accept-adds-entry", "http/refused-first-submission"}},
+		{Harness: pkgClientHTTP + ".VerifClientGet", Domain: sym.DomString, Solver: sym.CVC5, Quick: p(), Thorough: p(), Covers: []string{"client/200", "client/404", "client/other"}},
 	}})
 	reg(&checkSpec{ID: "vc", Runs: vcRuns(), Assumptions: commonAssumptions})
 	reg(&checkSpec{ID: "litmus", Runs: []runSpec{
